@@ -424,6 +424,7 @@ LibPureOK(name, a, heap, off) ==     \* a = validated arguments
       [] name = "mathCeil" -> R(IF IsQ(a[1]) THEN IntV(-FloorQ(Q(-a[1].n, a[1].d))) ELSE AnyNum, heap)
       [] name = "mathRound" ->
             IF ~IsQ(a[1]) THEN SkipR(heap)
+            ELSE IF Ix(a[2]) > 300 THEN R(W({"null", "fin"}), heap)                 \* 10^digits leaves the double range: null or the number
             ELSE IF a[1].d = 1 THEN R(a[1], heap)                                   \* an integer rounds to itself
             ELSE IF Abs(a[1].n) > 500000000 THEN R(AnyFinite, heap)
             ELSE IF Ix(a[2]) = 0 THEN                                               \* halves away from zero
